@@ -82,7 +82,9 @@ Theorem C04_collinear_root : forall index pm spol ppol phis ls lp ws wp, 0 < lp 
   let dkz := dkz_of index pm false (beam_new spol phis 0 ls ws) (pump_new ppol lp wp) in
   let z := dkz PPOff in
   z <> 0 -> w_z index spol ppol phis 0 ls lp ws wp PPOff <> 0 ->
-  (forall x, opp_min_period <= x <= L -> w_z index spol ppol phis 0 ls lp ws wp (PPOn x (sign_from z)) <> 0) ->
+  (* no evaluated period makes the closing vector vanish (there the code computes 0/0) *)
+  (forall x, In x (strace (nm_run Rltb o (pol_cost dkz L) sd (opp_seed0 (opp_guess z)) (opp_seed1 (opp_guess z)) opp_max_iter)) ->
+             opp_min_period <= x <= L -> w_z index spol ppol phis 0 ls lp ws wp (PPOn x (sign_from z)) <> 0) ->
   opp_min_period <= Rabs (2 * PI / z) <= L ->
   optimum_poling_period dkz o sd L = AutoOk (2 * PI / z) /\ dkz (poling_of (2 * PI / z)) = 0.
 Proof. exact collinear_root. Qed.
@@ -109,6 +111,11 @@ Example C04_nonvacuous_order : strict_weak_order Rltb.
 Proof. exact (conj Rltb_irrefl (conj Rltb_trans Rltb_cotrans)). Qed.
 Example C04_nonvacuous_period : forall o sd, optimum_poling_period ex_dkz o sd (1 / 100) = AutoOk (1 / 1000).
 Proof. exact nonvacuous. Qed.
+
+Example C04_nonvacuous_collinear :
+  let index := fun (_ : R) (_ : vec) (_ : polarization) => 3 / 2 in
+  w_z index Ordinary Ordinary 0 0 2 1 (1, 1) (1, 1) PPOff <> 0 /\ w_z index Ordinary Ordinary 0 0 2 1 (1, 1) (1, 1) (PPOn 1 false) <> 0.
+Proof. exact nonvacuous_collinear. Qed.
 
 Print Assumptions C04_nm_monotone.
 Print Assumptions C04_nm_monotone_iter.
